@@ -67,6 +67,22 @@ declarations:
 - decl: Pt *newPt(void) +owner(caller)
 """
 
+def twin(lang):
+    """The same declarations as a C and as a C++ library: both reach the same statement-table
+    entries, including those whose clauses differ by language."""
+    import yaml as _y
+
+    from .. import atoms as A
+    from . import c01
+
+    fs = [f for f in c01.l1_funcs(1) if "c" in f.langs()]
+    lib = A.Library("Twin" + ("c" if lang == "c" else "x"), fs, lang)
+    d = lib.yaml({"wrap_python": False, "wrap_lua": False})
+    d["declarations"] += [{"decl": "char lastLetter(void)"}, {"decl": "void shiftValues(int *values +intent(inout)+rank(1)+cdesc)"},
+                          {"decl": "void *rawp(void *p)"}, {"decl": "int callb(int (*fn)(int))"}]
+    return _y.safe_dump(d, sort_keys=False)
+
+
 ALPHABET = [
     ("csmall", libs.SMALL_C, []),
     ("small", libs.SMALL_CXX, []),
@@ -74,6 +90,8 @@ ALPHABET = [
     ("fwd", TYPEMAP_LIB, []),
     ("cstr", C_STRINGS, []),
     ("small-as-c-opts", libs.SMALL_CXX, ["--option", "F_CFI=true", "--option", "debug=true"]),
+    ("twin-c", None, []),
+    ("twin-cxx", None, []),
 ]
 
 
@@ -261,7 +279,7 @@ def run(ctx):
     quick = ctx.tier == "quick"
     W = ctx.workers
     base = ctx.subdir("h")
-    alphabet = list(ALPHABET)
+    alphabet = [(a[0], a[1] if a[1] is not None else twin("c" if a[0] == "twin-c" else "cxx"), a[2]) for a in ALPHABET]
     if not quick:
         indir = os.path.join(ctx.repo, "regression", "input")
         for nm in ("struct", "classes", "strings", "vectors", "ownership", "templates", "pointers", "tutorial", "enum", "generic"):
